@@ -343,7 +343,11 @@ void run_observable(vf::Ctx &c) {
       for (int j = 0; j < NSLOT; ++j) {
         if (!registered[j] || (P.slim && j != 0)) continue;
         ops[n++] = {OP_STEP, j};
-        if (!monotone && (j == 0 || P.rich)) ops[n++] = {OP_DEC, j};
+        // Non-monotone observation sequences are part of the quantifier for every kind: a counter's
+        // callback may report a lower total than before (the oracle stays "cumulative = reported total,
+        // delta = total minus what that reader was last given", possibly negative). For the monotone
+        // counter the reported totals themselves are kept >= 0 (a negative total is not a counter value).
+        if ((!monotone || w.v[j] > 0) && (j == 0 || P.rich)) ops[n++] = {OP_DEC, j};
         if (j == 0 || (j == 1 && P.rich)) ops[n++] = {OP_TOGGLE, j};
         if (j == 0 || (j == 1 && P.rich)) ops[n++] = {OP_REPEAT, j};  // 1 -> 2 -> 3 -> 1 observations per set and invocation
       }
